@@ -47,20 +47,20 @@ PRELUDE = r'''
 #include <cstring>
 #define W extern "C" __attribute__((noinline)) void
 namespace vh {
-template<int L, typename T, glm::qualifier Q> struct LD;
+template<glm::length_t L, typename T, glm::qualifier Q> struct LD;
 template<typename T, glm::qualifier Q> struct LD<1,T,Q>{ static inline glm::vec<1,T,Q> f(const T* p){ glm::vec<1,T,Q> v; v.x=p[0]; return v; } };
 template<typename T, glm::qualifier Q> struct LD<2,T,Q>{ static inline glm::vec<2,T,Q> f(const T* p){ glm::vec<2,T,Q> v; v.x=p[0]; v.y=p[1]; return v; } };
 template<typename T, glm::qualifier Q> struct LD<3,T,Q>{ static inline glm::vec<3,T,Q> f(const T* p){ glm::vec<3,T,Q> v; v.x=p[0]; v.y=p[1]; v.z=p[2]; return v; } };
 template<typename T, glm::qualifier Q> struct LD<4,T,Q>{ static inline glm::vec<4,T,Q> f(const T* p){ glm::vec<4,T,Q> v; v.x=p[0]; v.y=p[1]; v.z=p[2]; v.w=p[3]; return v; } };
-template<int L, typename T, glm::qualifier Q = glm::defaultp> static inline glm::vec<L,T,Q> ldv(const T* p){ return LD<L,T,Q>::f(p); }
+template<glm::length_t L, typename T, glm::qualifier Q = glm::defaultp> static inline glm::vec<L,T,Q> ldv(const T* p){ return LD<L,T,Q>::f(p); }
 template<typename T, typename U, glm::qualifier Q> static inline void stv(U* o, glm::vec<1,T,Q> const& v){ o[0]=v.x; }
 template<typename T, typename U, glm::qualifier Q> static inline void stv(U* o, glm::vec<2,T,Q> const& v){ o[0]=v.x; o[1]=v.y; }
 template<typename T, typename U, glm::qualifier Q> static inline void stv(U* o, glm::vec<3,T,Q> const& v){ o[0]=v.x; o[1]=v.y; o[2]=v.z; }
 template<typename T, typename U, glm::qualifier Q> static inline void stv(U* o, glm::vec<4,T,Q> const& v){ o[0]=v.x; o[1]=v.y; o[2]=v.z; o[3]=v.w; }
-template<int C, int R, typename T, glm::qualifier Q = glm::defaultp> static inline glm::mat<C,R,T,Q> ldm(const T* p){
-  glm::mat<C,R,T,Q> m; for(int c=0;c<C;++c) m[c] = ldv<R,T,Q>(p + c*R); return m; }
-template<int C, int R, typename T, typename U, glm::qualifier Q> static inline void stm(U* o, glm::mat<C,R,T,Q> const& m){
-  for(int c=0;c<C;++c) stv(o + c*R, m[c]); }
+template<glm::length_t C, glm::length_t R, typename T, glm::qualifier Q = glm::defaultp> static inline glm::mat<C,R,T,Q> ldm(const T* p){
+  glm::mat<C,R,T,Q> m; for(glm::length_t c=0;c<C;++c) m[c] = ldv<R,T,Q>(p + c*R); return m; }
+template<glm::length_t C, glm::length_t R, typename T, typename U, glm::qualifier Q> static inline void stm(U* o, glm::mat<C,R,T,Q> const& m){
+  for(glm::length_t c=0;c<C;++c) stv(o + c*R, m[c]); }
 // quaternions travel as named components [w,x,y,z], independent of memory order
 template<typename T, glm::qualifier Q = glm::defaultp> static inline glm::qua<T,Q> ldq(const T* p){ glm::qua<T,Q> q; q.w=p[0]; q.x=p[1]; q.y=p[2]; q.z=p[3]; return q; }
 template<typename T, typename U, glm::qualifier Q> static inline void stq(U* o, glm::qua<T,Q> const& q){ o[0]=q.w; o[1]=q.x; o[2]=q.y; o[3]=q.z; }
@@ -395,11 +395,19 @@ class Session:
         if solver == 'cvc5':
             r, m, dt = _cvc5_check(asserts, timeout, vars_, opts=()); return r, m, dt, 'cvc5'
         if solver == 'portfolio':        # z3 briefly, then cvc5 int-blasting, then z3 for the rest
-            t1 = min(timeout / 4, 15)
-            r, m, dt, _ = _z3_check(asserts, t1)
+            r, m, dt, _ = _z3_check(asserts, 3)
             if r != 'unknown': return r, m, dt, 'z3'
-            r, m, dt2 = _cvc5_check(asserts, timeout, vars_)
-            return r, m, dt + dt2, 'z3+cvc5 --solve-bv-as-int=sum'
+            r, m, dt2 = _cvc5_check(asserts, timeout / 2, vars_)
+            if r != 'unknown': return r, m, dt + dt2, 'z3+cvc5 --solve-bv-as-int=sum'
+            r, m, dt3, _ = _z3_check(asserts, timeout / 2)
+            return r, m, dt + dt2 + dt3, 'z3+cvc5 --solve-bv-as-int=sum+z3'
+        if solver == 'nra':          # real polynomial identities under equality hypotheses: nlsat with its variable reordering switched off decides in
+            # milliseconds what the default strategy needs 14 s (or forever) for; fall back to the default strategy for the rest of the budget
+            t1 = max(1.0, timeout / 2)
+            sv = z3.With('qfnra-nlsat', **{'nlsat.reorder': False}).solver(); sv.set('timeout', int(t1 * 1000)); sv.add(*asserts)
+            t = time.time(); r = str(sv.check()); dt = time.time() - t
+            if r != 'unknown': return r, (sv.model() if r == 'sat' else None), dt, 'z3 qfnra-nlsat(reorder=false)'
+            r, m, dt2, _ = _z3_check(asserts, max(1.0, timeout - dt)); return r, m, dt + dt2, 'z3 qfnra-nlsat(reorder=false)+z3'
         if solver == 'qfnra':
             r, m, dt, _ = _z3_check(asserts, timeout, tactic='qfnra-nlsat'); return r, m, dt, 'z3 qfnra-nlsat'
         raise ValueError(solver)
@@ -509,6 +517,103 @@ class Session:
                 s.prove('%s.twin.%s' % (name, label), goal_term(g), hyps, timeout=timeout, solver=solver, kind='mutant-twin', functions=fnlist, bounds=binfo, expect='sat', mandatory=False, vars_=allvars)
         return res
 
+    # -- differential check: the same wrapper in two builds (units / optimisation levels) on shared symbolic inputs
+    def diff_fn(s, ua, ub, fname, pre=None, *, mode='fp', name=None, opt_a='-O1', opt_b='-O1', unwind=16, known=(), timeout=None, solver='z3',
+                bounds='', mandatory=True, eq=None, fname_b=None, label_a='A', label_b='B', outs_sel=None, native_b=None):
+        """outputs of ua.fname and ub.fname(_b) must agree on every input satisfying pre.  eq(a, b, ctype) -> Bool overrides the default
+        (integers: equal; floats: bit-identical or both NaN; real mode: equal)."""
+        fname_b = fname_b or fname
+        name = name or '%s~%s.%s' % (ua.name, ub.name, fname)
+        fa = ua.fns[fname]; fb = ub.fns[fname_b]
+        ins = mkvars(fa, mode)
+        try:
+            ex = Exec(ua.module(opt_a), fmode='real' if mode == 'real' else 'fp', unwind=unwind)
+            ra = sym_call(ua, fname, ins=ins, mode=mode, unwind=unwind, opt=opt_a, ex=ex)
+            n_ob_a = len(ex.obligations)
+            rb = sym_call(ub, fname_b, ins=ins, mode=mode, unwind=unwind, opt=opt_b, ex=ex)
+        except Unsupported as e:
+            s.rec(name=name, kind='encode', result='unsupported', status='not-encoded', note=str(e), mandatory=mandatory, functions=[fname])
+            if mandatory: s.inconclusive.append('%s [not encoded: %s]' % (name, e))
+            return None
+        hyps = input_wellformed(fa, ins)
+        p = pre(ins) if pre else []
+        if not isinstance(p, (list, tuple)): p = [p]
+        hyps += list(p) + list(ex.axioms)
+        # equality is only demanded where the reference build (A) itself executes no UB / failed assertion (those inputs are outside every documented domain; C20 decides them)
+        ubA = [c for k, c, d in ex.obligations[:n_ob_a] if k in ('ub', 'trap', 'unreachable', 'domain')]
+        if ubA: hyps.append(z3.Not(z3.Or(*ubA)) if len(ubA) > 1 else z3.Not(ubA[0]))
+        pin = s.pins.get(name)
+        if pin:
+            for terms, vals in zip(ins, pin):
+                for t, v in zip(terms, vals):
+                    if z3.is_bv(t): hyps.append(t == bv(int(v, 16), t.size()))
+        # instance-level known findings (region '@instance'): the two builds route to different library functions, which uninterpreted functions cannot
+        # compare; the recorded witness input is replayed natively; while it still differs the instance is reported and excluded from the equality claim
+        for kid in known:
+            kf = s.known.get(kid)
+            if kf is None or kf.get('status', 'open') != 'open' or kf.get('region') != '@instance': continue
+            if not fnmatch.fnmatch(name, kf['obligation']): continue
+            wit = (kf.get('witness') or {}).get(fname)
+            if not wit: continue
+            vals = [[int(v, 16) for v in row] for row in wit]
+            na = ua.call_native(fname, vals); nb = (native_b or ub).call_native(fname_b, vals)
+            differs = False
+            for (c, n_), xa, xb in zip(fa.outs, na, nb):
+                for x, y in zip(xa, xb):
+                    if ct_kind(c) == 'f':
+                        fx, fy = bits_to_float(x, ct_bits(c)), bits_to_float(y, ct_bits(c))
+                        if x != y and not (fx != fx and fy != fy): differs = True
+                    elif (x & 1 if ct_kind(c) == 'b' else x) != (y & 1 if ct_kind(c) == 'b' else y): differs = True
+            s.rec(name=name + '.known[%s]' % kid, kind='known-finding-probe', functions=[fname], bounds=bounds, solver='native replay of recorded witness', result='differs' if differs else 'agrees',
+                  time_s=0.0, mandatory=False, status='known-finding' if differs else 'known-finding-absent', replay_info={'inputs': wit, 'native_' + label_a: [[hex(v) for v in r] for r in na], 'native_' + label_b: [[hex(v) for v in r] for r in nb]})
+            if differs:
+                s.known_hits.append((kid, kf['what'])); return ra, rb
+        known = [k for k in known if (s.known.get(k) or {}).get('region') != '@instance']
+        allvars = [t for terms in ins for t in terms]
+        fnlist = ['%s: w_%s -> %s' % (label_a + '|' + label_b, fname, fa.body.strip().replace('\n', ' ')[:140])]
+        binfo = ('unwind=%d; ' % unwind) + bounds + '; ll=%s vs %s' % (ua.ll_sha(opt_a), ub.ll_sha(opt_b))
+        def default_eq(a, b, c):
+            if isinstance(a, RV): return a.r == b.r
+            if isinstance(a, FV):
+                if a._bits is not None and b._bits is not None and a._bits.eq(b._bits): return z3.BoolVal(True)
+                return z3.Or(a.bits == b.bits, z3.And(z3.fpIsNaN(a.fp), z3.fpIsNaN(b.fp)))
+            if ct_kind(c) == 'b': return (a & 1) == (b & 1)
+            return a == b
+        eqf = eq or default_eq
+        def mk_replay(oi, i):
+            def replay(m):
+                vals = s._model_inputs(m, ra)
+                info = {'unit': ua.name, 'unit_b': ub.name, 'fn': fname, 'inputs': [[hex(v) if isinstance(v, int) else str(v) for v in r] for r in vals], 'obligation': name, 'property': s.pid, 'pin_name': name}
+                if mode == 'real':
+                    vals = [[float_to_bits(float(v), ct_bits(c)) if ct_kind(c) == 'f' else int(v) for v in row] for (c, n), row in zip(fa.ins, vals)]
+                cxa, oa = ('clang++-14', opt_a) if opt_a != opt_b else ('g++', '-O2')
+                cxb, ob = ('clang++-14', opt_b) if opt_a != opt_b else ('g++', '-O2')
+                na = ua.call_native(fname, vals, cxx=cxa, opt=oa); nb = (native_b or ub).call_native(fname_b, vals, cxx=cxb, opt=ob)
+                info['native_' + label_a] = [[hex(v) for v in r] for r in na]; info['native_' + label_b] = [[hex(v) for v in r] for r in nb]
+                c = fa.outs[oi][0]; x, y = na[oi][i], nb[oi][i]
+                if ct_kind(c) == 'b': x &= 1; y &= 1
+                if x == y: return 'not-reproduced', info
+                if ct_kind(c) == 'f':
+                    fx, fy = bits_to_float(x, ct_bits(c)), bits_to_float(y, ct_bits(c))
+                    if fx != fx and fy != fy: return 'not-reproduced', info
+                    if mode == 'real':
+                        tol = 2e-3 if ct_bits(c) == 32 else 1e-6
+                        if fx == fx and fy == fy and abs(fx - fy) <= tol * max(1.0, abs(fx), abs(fy)): return 'not-reproduced', info
+                return 'reproduced', info
+            return replay
+        for oi, ((c, n), va, vb) in enumerate(zip(fa.outs, ra.outs, rb.outs)):
+            if outs_sel is not None and oi not in outs_sel: continue
+            for i, (a, b) in enumerate(zip(va, vb)):
+                g = eqf(a, b, c)
+                oname = '%s.o%d_%d' % (name, oi, i) if len(fa.outs) > 1 else '%s.%d' % (name, i)
+                gs = z3.simplify(g)
+                if z3.is_true(gs):
+                    s.rec(name=oname, kind='diff', functions=fnlist, bounds=binfo, solver='identical terms (z3 simplifier)', result='unsat', time_s=0.0, status='discharged', mandatory=mandatory)
+                    continue
+                s._prove_known(oname, g, hyps, ra, known, timeout=timeout, solver=solver, kind='diff', functions=fnlist, bounds=binfo, spec_fn=None, pre_fn=pre,
+                               unit=ua, fname=fname, mode=mode, vars_=allvars, mandatory=mandatory, replayer=mk_replay(oi, i))
+        return ra, rb
+
     def _model_inputs(s, m, res):
         vals = []
         for (c, n), terms in zip(res.fn.ins, res.ins):
@@ -550,7 +655,7 @@ class Session:
             return 'not-reproduced', info
         return replay
 
-    def _prove_known(s, oname, goal, hyps, res, known, *, timeout, solver, kind, functions, bounds, spec_fn, pre_fn, unit, fname, mode, vars_, mandatory=True):
+    def _prove_known(s, oname, goal, hyps, res, known, *, timeout, solver, kind, functions, bounds, spec_fn, pre_fn, unit, fname, mode, vars_, mandatory=True, replayer=None):
         """prove goal; if a reproduced counterexample falls into a listed known finding's region, report KNOWN-FINDING and re-prove outside it."""
         regions = []
         for kid in known:
@@ -559,7 +664,7 @@ class Session:
             if kf.get('status', 'open') != 'open': continue
             if not fnmatch.fnmatch(oname, kf['obligation']): continue
             regions.append((kid, kf, eval_region(kf['region'], res, oname, s.pid)))
-        rp = s._replayer(res, spec_fn, pre_fn, unit, fname, mode, oname, side_kind=None if spec_fn else kind)
+        rp = replayer or s._replayer(res, spec_fn, pre_fn, unit, fname, mode, oname, side_kind=None if spec_fn else kind)
         if not regions:
             s.prove(oname, goal, hyps, timeout=timeout, solver=solver, kind=kind, functions=functions, bounds=bounds, replay=rp, vars_=vars_, mandatory=mandatory)
             return
